@@ -339,6 +339,15 @@ func cmdCheck(args []string) int {
 				continue
 			}
 		}
+		if o.Kind == "frame" && strings.Contains(o.Name, "/frame/G:ghost:") {
+			// The function now changes a ghost log (it calls a ghost-logged function such as
+			// context.WithCancel or os.Environ) that its modifies clause does not list. That makes
+			// the contract incomplete - callers may rely on the log being unchanged - but it is no
+			// property violation in itself: undecided, the other obligations and the bounded
+			// replays decide.
+			undecided = append(undecided, fmt.Sprintf("%s: %s (the function changes a ghost log that its contract does not list; the contract is incomplete for this code)", o.Name, o.Result))
+			continue
+		}
 		kf := matchKnown(known.Findings, *prop, o.Name)
 		if kf != nil {
 			nKnownObl++
